@@ -22,6 +22,20 @@ def batches(tier, seed):
         lay_src, lay_sup = rng.random() < 0.45, rng.random() < 0.45      # layered: nested choices under options
         for _try in range(60):
             src = dsgcase.gen_layered(rng) if lay_src else dsgcase.gen_sel(rng, max_nodes=8, max_choices=3, n_incompat=rng.choice([0, 0, 1]))
+            if rng.random() < 0.4:
+                # an option of a conditionally active choice that is also derived in another way (by an option of another choice
+                # or by a permanent node): the node can exist while the choice is inactive
+                opts_all = {o for sc in src['sel'] for o in sc['options']}
+                cond = [sc for sc in src['sel'] if sc['origin'] in opts_all and len(set(sc['options'])) >= 2]
+                if cond:
+                    scb = rng.choice(cond)
+                    ob = rng.choice(scb['options'])
+                    others = [o for sc in src['sel'] if sc['id'] != scb['id'] for o in sc['options'] if o not in scb['options'] and o != scb['origin']]
+                    others += [n_ for n_ in range(src['n']) if n_ in src['start']]
+                    if others:
+                        x = rng.choice(others)
+                        if [x, ob] not in src['edges'] and x != ob:
+                            src['edges'] = src['edges'] + [[x, ob]]
             if not dsgcase.guards(src) and 'prederive' not in src:
                 break
         for _try in range(60):
